@@ -26,6 +26,9 @@ pub struct Case {
     /// pointers, null, null = n + 3 entries) instead of an empty init_stack stack
     #[serde(default)]
     pub entry_frame: Option<u8>,
+    /// the run starts at this slot of the code (the constructor's entry point need not be its first byte)
+    #[serde(default)]
+    pub entry_slot: usize,
 }
 
 const STOP_MNEMS: [SupportedMnemonic; 7] = [SupportedMnemonic::Nop, SupportedMnemonic::Mov, SupportedMnemonic::Add, SupportedMnemonic::Cmp, SupportedMnemonic::Jmp, SupportedMnemonic::Call, SupportedMnemonic::Ret];
@@ -34,7 +37,7 @@ pub struct C11;
 
 fn build(c: &Case, limit: Option<u64>) -> Result<Axecutor, String> {
     let img = prog::assemble(&c.prog, BASE);
-    let mut ax = Axecutor::new(&img, BASE, BASE).map_err(|e| e.to_string())?;
+    let mut ax = Axecutor::new(&img, BASE, prog::slot_addr(BASE, c.entry_slot.min(c.prog.len().saturating_sub(1)))).map_err(|e| e.to_string())?;
     init_regs(&mut ax, c.seed);
     match c.entry_frame {
         None => ax.init_stack(0x800).map(|_| ()),
@@ -113,7 +116,8 @@ impl Property for C11 {
         }
         // 1/5: the stack holds an entry frame; it is empty only once the whole frame has been popped
         let entry_frame = if t.below(5) == 0 { Some(t.below(2) as u8) } else { None };
-        Case { prog: p, seed, limit_delta, resume_after, stop, entry_frame }
+        let entry_slot = if t.below(4) == 0 { t.below(p.len() as u64) as usize } else { 0 };
+        Case { prog: p, seed, limit_delta, resume_after, stop, entry_frame, entry_slot }
     }
 
     fn exec(&mut self, c: &Case) -> CaseOut {
@@ -409,6 +413,22 @@ impl Property for C11 {
                     fail(&mut out, "limit|set-after-some-steps", format!("setting the limit {} after {} steps and running on differs from setting it before the run: {} / {} ; {}", n, done, ra.short(), re.short(), a_final.diff(&e_final)));
                     return out;
                 }
+            } else if early.is_none() && !snap(&e).finished {
+                // the limit is set *below* what has already run: it has been reached (and passed), so a
+                // further step — however many are tried — fails and changes nothing
+                e.set_max_instructions(n);
+                out = out.class("limit:set-late-below-executed");
+                for attempt in 0..2 {
+                    let pre_e = snap(&e);
+                    let r = step(&mut e);
+                    let post_e = snap(&e);
+                    if !matches!(r, Api::Err(_)) || post_e != pre_e {
+                        prog::take_events();
+                        fail(&mut out, "limit|lowered-below-executed-not-enforced", format!("{} instructions had run when the limit was set to {}; further step #{} answered {} ({})", done, n, attempt + 1, r.short(), pre_e.diff(&post_e)));
+                        return out;
+                    }
+                }
+                prog::take_events();
             } else {
                 prog::take_events();
             }
@@ -421,7 +441,7 @@ impl Property for C11 {
         "cases: slot-grid programs of 1–30 instructions (register ALU/mov/inc/dec/cmp/test, Jcc/JMP rel8|rel32 forward and backward, JMP/CALL through a register, JRCXZ, CALL/RET, PUSH/POP on an initialised stack), ending by falling off the end, a top-level RET, a jump to the end address, a jump past it, an error, or a stop hook; instruction limits {none, 0, k−n, k−1, k, k+1} around the dynamic length k; a resume point; the limit set before the run or after r steps; oracle: a checked stepping run (count +1, RIP = decoded next-ip for non-transfers, finish ⇔ code end ∨ top-level RET ∨ stop), twin runs execute() ≡ step* ≡ step^r;execute (result, full state snapshot, hook events), and 'a further step fails and changes nothing' after finish / limit; non-trivial = ≥3 dynamic instructions and not cut by the harness's hard limit; distinct by hash(case)".into()
     }
     fn required_classes(&self, _tier: Tier) -> Vec<String> {
-        ["finish:reached-code-end", "finish:top-level-ret", "finish:stop-hook", "finish:error", "limit:none", "limit:0", "limit:<k", "limit:=k", "limit:>k", "limit:set-late", "limit:raised-and-resumed"].iter().map(|s| s.to_string()).collect()
+        ["finish:reached-code-end", "finish:top-level-ret", "finish:stop-hook", "finish:error", "limit:none", "limit:0", "limit:<k", "limit:=k", "limit:>k", "limit:set-late", "limit:set-late-below-executed", "limit:raised-and-resumed"].iter().map(|s| s.to_string()).collect()
     }
     fn assumptions(&self) -> Vec<String> {
         vec!["every run carries a hard limit of 400 instructions so that generated loops terminate; runs cut by it are only twin-compared".into(), "whether the current instruction still executes after a before-hook stop is left open; the stepping reference observes what the code does and the twins must agree".into()]
